@@ -23,7 +23,9 @@ RULE = (
     "a realised occurrence probability; call_posterior_haplotypes, _genotype_as_alleles and _genotype_posterior_as_array are "
     "compared with exact rational arithmetic. (b) CLI level: generated datasets are assembled at threshold 0 (every sampled "
     "haplotype listed, full AOP table) and at drawn thresholds with --report AOP AFP GP and the same seed; ALT / REFMASKED / "
-    "GT '.' / sum AFP / sum GP are derived from the threshold-0 table. non-trivial = >=2 samples with >=1 haplotype excluded "
+    "GT '.' / sum AFP / sum GP are derived from the threshold-0 table; at threshold 0 itself genotypes must be complete, allele "
+    "sequences distinct and AFP sum to 1; one sample in three is made deep and homozygous (25-60 copies of one read) so that "
+    "all its SNVs are fixed before sampling. non-trivial = >=2 samples with >=1 haplotype excluded "
     "and >=1 included (reference masked in some cases); distinct by decoded case"
 )
 ASSUMPTIONS = [
@@ -192,12 +194,42 @@ def cli_case(draw):
     spec = draw(D.dataset_spec(max_loci=2, max_snvs=4, max_samples=3, max_reads=12, mapq_values=(60,), flags=False, min_reads=0, extra_bases=True))
     ploidy = {s: draw(st.sampled_from([2, 4, 3])) for s in spec["samples"]}
     thrs = [draw(st.sampled_from([0.05, 0.2, 0.5, 0.8, 0.95, 1.0])) for _ in range(2)]
-    return {"kind": "cli", "spec": spec, "ploidy": ploidy, "thresholds": thrs, "seed": draw(st.integers(1, 10000))}
+    # some samples are made deep and homozygous (many copies of one read): every SNV is then fixed before sampling starts
+    deep = {s: draw(st.integers(25, 60)) for s in spec["samples"] if draw(st.integers(0, 2)) == 0}
+    return {"kind": "cli", "spec": spec, "ploidy": ploidy, "thresholds": thrs, "seed": draw(st.integers(1, 10000)), "deep": deep}
+
+
+def deepen(spec, deep):
+    """Replace the reads of the given samples, locus by locus, by n copies of the read covering most SNVs of that locus."""
+    import copy
+
+    spec = copy.deepcopy(spec)
+    n_clone = 0
+    for b in spec["bams"]:
+        sm = {rg["id"]: rg["sm"] for rg in b["read_groups"]}
+        keep = [r for r in b["reads"] if sm[r["rg"]] not in deep]
+        for sample, n in sorted(deep.items()):
+            mine = [r for r in b["reads"] if sm[r["rg"]] == sample]
+            for locus in spec["loci"]:
+                pos = [v["pos"] for v in spec["snvs"] if v["contig"] == locus["contig"] and locus["start"] <= v["pos"] < locus["stop"]]
+                cand = [r for r in mine if r["contig"] == locus["contig"] and D.overlaps(r, locus["start"], locus["stop"]) and not r.get("flag", {}).get("unmapped")]
+                if not cand or not pos:
+                    continue
+                best = max(cand, key=lambda r: (sum(1 for q in pos if q in D.aligned_bases(r)), r["qname"]))
+                for _ in range(n):
+                    c = copy.deepcopy(best)
+                    c["qname"] = "deep%d" % n_clone
+                    c["flag"] = {}
+                    c.pop("mate_pos", None)
+                    n_clone += 1
+                    keep.append(c)
+        b["reads"] = keep
+    return spec
 
 
 def check_cli(ctx, case):
     problems = []
-    spec = case["spec"]
+    spec = deepen(case["spec"], case["deep"]) if case.get("deep") else case["spec"]
     wd = os.path.join(common.work_dir(), "c13")
     shutil.rmtree(wd, ignore_errors=True)
     nontrivial = False
@@ -218,6 +250,21 @@ def check_cli(ctx, case):
                 problems.append(Problem("assemble:raised:%s" % type(err0).__name__, "threshold 0 run failed: %s" % CLI.describe(err0)))
                 return problems
             h0, samples, recs0 = CLI.parse_records(out0)
+            # threshold 0 lists every sampled haplotype: genotypes are complete, alleles are distinct sequences, AFP sums to 1
+            for r0 in recs0:
+                seqs0 = [r0["REF"]] + r0["ALT"]
+                if len(set(seqs0)) != len(seqs0):
+                    problems.append(Problem("cli:duplicate_allele_sequence", "threshold 0: %s:%d lists a sequence twice: %s" % (r0["CHROM"], r0["POS"], seqs0)))
+                    return problems
+                for s in samples:
+                    gt0 = r0["samples"][s]["GT"].split("/")
+                    if "." in gt0:
+                        problems.append(Problem("cli:unknown_allele_at_threshold_0", "threshold 0: %s:%d sample %s GT %s although every sampled haplotype qualifies (AOP %s)" % (r0["CHROM"], r0["POS"], s, "/".join(gt0), r0["samples"][s]["AOP"])))
+                        return problems
+                    afp0 = V.floats(r0["samples"][s]["AFP"])
+                    if abs(sum(x or 0 for x in afp0) - 1) > 0.0005 * len(afp0) + 1e-9:
+                        problems.append(Problem("cli:afp_sum_at_threshold_0", "threshold 0: %s:%d sample %s AFP %s does not sum to 1" % (r0["CHROM"], r0["POS"], s, r0["samples"][s]["AFP"])))
+                        return problems
             for thr in case["thresholds"]:
                 out, err = run(thr)
                 if err is not None:
@@ -279,7 +326,7 @@ def check_cli(ctx, case):
                             return problems
     finally:
         shutil.rmtree(wd, ignore_errors=True)
-        ctx.record(case, nontrivial and len(spec["samples"]) >= 2, ["cli"] + (["cli:some_haplotype_excluded"] if nontrivial else []))
+        ctx.record(case, nontrivial and len(spec["samples"]) >= 2, ["cli"] + (["cli:some_haplotype_excluded"] if nontrivial else []) + (["cli:deep_homozygous_sample"] if case.get("deep") else []))
     return problems
 
 
